@@ -265,11 +265,25 @@ def to_sync_iter(iterable: AsyncIterable[T],
     if loop is None:
         loop = aio.new_event_loop()
 
+    started = False
+
     def _set_loop_and_queue_elements(_loop: Loop) -> None:
-        aio.set_event_loop(_loop)
-        _loop.run_until_complete(_queue_elements())
+        try:
+            if _loop.is_running():  # In another thread: hand it over
+                run_coro_ts(_queue_elements(), _loop).result()
+            else:
+                aio.set_event_loop(_loop)
+                _loop.run_until_complete(_queue_elements())
+        except BaseException:
+            if not started:
+                # E.g. the loop is closed: the consumer still waits for
+                # the end marker, wake it up so that it sees the error
+                put(_DONE)  # type: ignore
+            raise
 
     async def _queue_elements() -> None:
+        nonlocal started
+        started = True
         try:
             async for x in iterable:
                 put(x)
